@@ -39,6 +39,14 @@ def run(ctx, chk):
     chk.rule("Q7", "backend adapters delegate (C02/D3)")
     run_on(fb, chk)
     n = lambda r: len([i for i in chk.instances if i[0] == r])
+    # ring addresses are the translated guest addresses (C13/M3); the lock-backed ring types forward every setter to
+    # the same-named state method (C02/D3 applied to the ring adapters)
+    from vlint.report import Renamed as _Renamed
+    from . import c13 as _c13, c02 as _c02
+    chk.rule("Q7", "frontend virtual addresses are translated as va - user_base + gpa_base inside the containing region (C13/M3)")
+    _c13.run_on(fb, _Renamed(chk, {"M3": "Q7"}))
+    chk.rule("Q8", "ring adapter methods (VringMutex / VringRwLock) delegate to the same-named VringState method (C02/D3)")
+    _c02.d3(fb, _Renamed(chk, {"D3": ("Q8", lambda k: "Vring" in k)}), "")
     chk.floor("Q1", n("Q1"), 8)
     chk.floor("Q3", n("Q3"), 4)
     chk.floor("Q4", n("Q4"), 4)
